@@ -68,6 +68,9 @@ type Node struct {
 	handleEnd chan struct{}
 }
 
+// restWrap, when set, wraps every node's REST router (C14 panic recorder).
+var restWrap func(name string, h http.Handler) http.Handler
+
 func sum64(b []byte) uint64 {
 	h := fnv.New64a()
 	h.Write(b)
@@ -123,7 +126,10 @@ func (n *Node) listen() error {
 		n.restLn.Close()
 		return err
 	}
-	router := replicarest.NewRouter(replicarest.NewServer(n.S))
+	router := http.Handler(replicarest.NewRouter(replicarest.NewServer(n.S)))
+	if restWrap != nil {
+		router = restWrap(n.Name, router)
+	}
 	n.httpSrv = &http.Server{Handler: http.HandlerFunc(func(w http.ResponseWriter, r *http.Request) {
 		action := r.URL.Query().Get("action")
 		n.mu.Lock()
